@@ -626,6 +626,15 @@ func (c *Ctx) SignExt(n int, a *Term) *Term {
 }
 
 func (c *Ctx) Concat(hi, lo *Term) *Term {
+	// adjacent extracts of the same term merge (byte arrays re-assembled into the value
+	// they were cut from)
+	if hi.Op == "extract" && lo.Op == "extract" && hi.Args[0] == lo.Args[0] && hi.Aux[1] == lo.Aux[0]+1 {
+		return c.Extract(hi.Aux[0], lo.Aux[1], hi.Args[0])
+	}
+	if hi.Op == "concat" && hi.Args[1].Op == "extract" && lo.Op == "extract" &&
+		hi.Args[1].Args[0] == lo.Args[0] && hi.Args[1].Aux[1] == lo.Aux[0]+1 {
+		return c.Concat(hi.Args[0], c.Extract(hi.Args[1].Aux[0], lo.Aux[1], lo.Args[0]))
+	}
 	if hi.IsConst() && lo.IsConst() {
 		v := new(big.Int).Lsh(hi.Val, uint(lo.Sort.W))
 		v.Or(v, lo.Val)
@@ -641,6 +650,15 @@ func (c *Ctx) BV2Nat(a *Term) *Term {
 	}
 	if a.Op == "ite" && constLeaves(a) {
 		return c.Ite(a.Args[0], c.BV2Nat(a.Args[1]), c.BV2Nat(a.Args[2]))
+	}
+	if a.Op == "int2bv" {
+		// the integer was a canonical residue below 2^w: the round trip is the identity
+		t := a.Args[0]
+		if t.Op == "mod" && t.Args[1].IsConst() && t.Args[1].Val.Sign() > 0 && t.Args[1].Val.BitLen() <= a.Sort.W {
+			return t
+		}
+		// in general bv2nat(int2bv_w(t)) = t mod 2^w: stay in the integer theory
+		return c.Mod(t, c.IntC(new(big.Int).Lsh(big.NewInt(1), uint(a.Sort.W))))
 	}
 	return c.mk("bv2nat", Int, a)
 }
